@@ -345,14 +345,14 @@ func (m *canaryReleaseManager) doCanaryJump(c *RolloutContext) (jumped bool) {
 // cleanup after rollout is completed or finished
 func (m *canaryReleaseManager) doCanaryFinalising(c *RolloutContext) (bool, error) {
 	canaryStatus := c.NewStatus.CanaryStatus
-	// when CanaryStatus is nil, which means canary action hasn't started yet, don't need doing cleanup
-	if canaryStatus == nil {
-		return true, nil
-	}
 	// rollout progressing complete, remove rollout progressing annotation in workload
 	err := removeRolloutProgressingAnnotation(m.Client, c)
 	if err != nil {
 		return false, err
+	}
+	// when CanaryStatus is nil, which means canary action hasn't started yet, don't need doing other cleanup
+	if canaryStatus == nil {
+		return true, nil
 	}
 	tr := newTrafficRoutingContext(c)
 	// execute steps based on the predefined order for each reason
